@@ -38,6 +38,7 @@ theorem validated_of_ok (tx : Tx) (s : Slots) (pre : St) (oi : Option L1Info)
       calculateTxL1Cost (tryFetch s tx.spec) env tx.spec = (l1, info) := by
   unfold validateTxAgainstState at h
   simp only [hdep, Bool.false_eq_true, if_false] at h
+  unfold validateWith at h
   by_cases hn : nonceMismatch tx pre = true
   · simp only [hn, if_true] at h; cases h
   · simp only [hn, if_false] at h
@@ -633,5 +634,47 @@ theorem conservation_exact_core (tx : Tx) (s : Slots) (pre : St) (fr : Frame) (o
   · rw [c2]; exact Nat.le_add_right _ _
   · rw [c3]; exact Nat.le_add_right _ _
   · rw [c4]; exact Nat.le_add_right _ _
+
+/-! ### histories on one `Evm`: `clear` makes every transaction start from an empty `l1_block_info` -/
+
+theorem validateCtx_none (tx : Tx) (s : Slots) (st : St) :
+    validateTxAgainstStateCtx tx s st none = validateTxAgainstState tx s st := by
+  unfold validateTxAgainstStateCtx validateTxAgainstState; rfl
+
+theorem transactCtx_none (tx : Tx) (s : Slots) (pre : St) (exec : St → St) (fr : Frame) :
+    transactCtx clearCtx tx s pre exec fr none = (transactWith tx s pre exec fr, none) := by
+  unfold transactCtx transactWith clearCtx
+  rw [validateCtx_none]
+  cases validateEnv tx with
+  | some e => rfl
+  | none =>
+    cases validateInitialGas tx with
+    | some e => rfl
+    | none =>
+      cases validateTxAgainstState tx s pre with
+      | err e => rfl
+      | panic => rfl
+      | ok info => rfl
+
+theorem runHistory_fresh (steps : List Step) (st : St) :
+    runHistory clearCtx st none steps = runHistoryFresh st steps := by
+  induction steps generalizing st with
+  | nil => rfl
+  | cons p ps ih =>
+    unfold runHistory runHistoryFresh
+    simp only [transactCtx_none, transact]
+    rw [ih]
+
+/-- the database state after a history (every outcome committed) -/
+def stateAfter : St → List Step → St
+  | st, [] => st
+  | st, p :: ps => stateAfter (commit st (transact p.tx p.slots st p.fr)) ps
+
+theorem runHistoryFresh_last (ps : List Step) (p : Step) (st : St) :
+    runHistoryFresh st (ps ++ [p]) = runHistoryFresh st ps ++ [transact p.tx p.slots (stateAfter st ps) p.fr] := by
+  induction ps generalizing st with
+  | nil => rfl
+  | cons q qs ih =>
+    simp only [List.cons_append, runHistoryFresh, stateAfter, ih]
 
 end Revm.Proofs.OpFees
